@@ -91,6 +91,12 @@ def eval_term(tm, leaf: t.Callable[[tuple], t.Any]):
     if tag == "call" and tm[1][0] == "ext" and tm[1][1] in ("min", "max", "abs", "int", "round", "float") and tm[2] and not tm[3]:
         import builtins
         return getattr(builtins, tm[1][1])(*[eval_term(a, leaf) for a in tm[2]])
+    if tag == "call" and tm[1][0] == "ext" and tm[1][1] in ("tuple", "list", "frozenset", "set", "sorted") and len(tm[2]) == 1 and not tm[3]:
+        try:
+            return leaf(tm)
+        except AnalysisError:
+            v = eval_term(tm[2][0], leaf)
+            return frozenset(v) if tm[1][1] in ("frozenset", "set") else tuple(sorted(v)) if tm[1][1] == "sorted" else tuple(v)
     if tag == "call" and tm[1] == ("ext", "len") and len(tm[2]) == 1:
         return len(eval_term(tm[2][0], leaf))
     if tag == "call" and tm[1] == ("ext", "bool") and len(tm[2]) == 1:
